@@ -22,23 +22,30 @@ Inductive op :=
    Python int keys); operator and parameter are selected by C11's model of validate_constraints (Model/Constraints.v: zvalidate,
    through Model/ProxDispatch.validate_kwargs); aux = norm tape of the selected operator.
    ORouted: the implementation returned; ORejected: the implementation raised ValueError *)
-| ORouted (n_const order : nat) (specs : kwargs) (aux : Q)
+| ORouted (n_const : option nat) (order : nat) (specs : kwargs) (aux : Q)
 | ORejected (n_const order : nat) (specs : kwargs).
 
-Definition op_of (k : Constraints.kind) (p aux : Q) : op :=
-  match k with
-  | Constraints.KNonNeg => ONonneg | Constraints.KL1 => OSoft p | Constraints.KL2 => OL2 p aux | Constraints.KL2sq => OL2sq p
-  | Constraints.KUnimodal => OUnimodal | Constraints.KNormalize => ONormalize | Constraints.KSimplex => OSimplex p
-  | Constraints.KNormSparsity => ONormSparsity (Z.to_nat (Qnum p)) aux | Constraints.KSoftSparsity => OSoftSparsity p
-  | Constraints.KSmooth => OSmooth p | Constraints.KMonotone => OMonotone false | Constraints.KHardSparsity => OHard (Z.to_nat (Qnum p))
+(* the operators proximal_operator can select (Model/ProxDispatch.pop) among the operators of the correspondence *)
+Definition of_pop (o : @pop Q) : op :=
+  match o with
+  | PNonneg => ONonneg | PSoft t => OSoft t | PL2 t s => OL2 t s | PL2sq t => OL2sq t | PUnimodal => OUnimodal
+  | PNormalize => ONormalize | PSimplex p => OSimplex p | PNormSparsity k s => ONormSparsity k s | PSoftSparsity p => OSoftSparsity p
+  | PSmooth t => OSmooth t | PMonotone d => OMonotone d | PHard k => OHard k | PIdentity => OIdentity
   end.
-(* None: the model says validate_constraints raises *)
+Definition to_pop (o : op) : option (@pop Q) :=
+  match o with
+  | ONonneg => Some PNonneg | OSoft t => Some (PSoft t) | OL2 t s => Some (PL2 t s) | OL2sq t => Some (PL2sq t)
+  | OUnimodal => Some PUnimodal | ONormalize => Some PNormalize | OSimplex p => Some (PSimplex p)
+  | ONormSparsity k s => Some (PNormSparsity k s) | OSoftSparsity p => Some (PSoftSparsity p) | OSmooth t => Some (PSmooth t)
+  | OMonotone d => Some (PMonotone d) | OHard k => Some (PHard k) | OIdentity => Some PIdentity
+  | _ => None
+  end.
+(* None: the model (Model/ProxDispatch.selected_pop: early exit, validate_constraints, dispatch, parameter passing) says the call raises *)
 Definition resolve_op (o : op) : option op :=
   match o with
   | ORouted n ord specs aux =>
-      match validate_kwargs n ord specs with
-      | Ok (Some (k, p)) => Some (op_of k p aux)
-      | Ok None => Some OIdentity
+      match selected_pop (fun q : Q => q) n ord specs aux with
+      | Ok po => Some (of_pop po)
       | Err => None
       end
   | ORejected _ _ _ => None
@@ -46,25 +53,15 @@ Definition resolve_op (o : op) : option op :=
   end.
 
 Definition run (o : op) (rows : M) : M :=
+  match to_pop o with
+  | Some po => prun Qops po rows       (* every operator reachable through proximal_operator runs through the model of its dispatch *)
+  | None =>
   match o with
-  | ONonneg => flatwise (non_negative Qops) rows
-  | OSoft t => flatwise (soft_thresholding Qops t) rows
   | OSoftArr ts => flatwise (soft_thresholding_arr Qops (concat ts)) rows
-  | OL2sq t => flatwise (l2_square_prox Qops t) rows
-  | OL2 t s => flatwise (l2_prox_with Qops s t) rows
-  | OSmooth t => colwise Qops (smoothness_solve Qops t) rows
-  | OSimplex p => colwise Qops (simplex_prox Qops p) rows
-  | OSoftSparsity p => colwise Qops (soft_sparsity_prox Qops p) rows
-  | OMonotone d => colwise Qops (monotonicity_prox Qops d) rows
-  | OUnimodal => cols_of Qops (unimodality_cols Qops (cols_of Qops rows))
-  | OHard k => flatwise (hard_thresholding Qops k) rows
-  | ONormSparsity k s => flatwise (normalized_sparsity_with Qops s k) rows
-  | ONormalize => flatwise (normalize Qops) rows
-  | OIdentity => rows
   | OSvt t U s V => svd_thresholding_with Qops U s V t
   | OProcrustes U s V => procrustes_with Qops U V
-  | ORouted _ _ _ _ | ORejected _ _ _ => rows        (* never reached: cases are resolved first *)
-  end.
+  | _ => rows        (* ORouted / ORejected, never reached: cases are resolved first *)
+  end end.
 
 Fixpoint rows_close (atol rtol : Q) (a b : M) : bool :=
   match a, b with
